@@ -34,7 +34,8 @@ def shards(tier, seed):
 def floors(tier):
     return {"qasm_roundtrip": 500, "json_roundtrip": 500, "standard_reader:circuits": 300, "standard_reader:branches": 500,
             "determinism:in_process": 500, "determinism:other_process_other_hashseed": 100, "programs:with_wrapper": 200,
-            "programs:with_MR": 150, "programs:register_index>=10": 10, "programs:with_Pdag": 150, "state_compare": 300}
+            "programs:with_MR": 150, "programs:register_index>=10": 10, "programs:with_Pdag": 150, "state_compare": 300,
+            "programs:edited_before_export": 200, "programs:with_replaced_operation": 120}
 
 
 def wire_signatures_from_circuit(circ):
@@ -97,7 +98,13 @@ def gen(rng):
                 break
         n_c = int(rng.integers(0, 4))
         L = int(rng.integers(0, 22))
-    return programs.random_program(rng, n_e, n_p, n_c, L, alphabet=ALPHABET, adversarial=True)
+    prog, circ = programs.random_program(rng, n_e, n_p, n_c, L, alphabet=ALPHABET, adversarial=True)
+    prog.edits = []
+    if rng.random() < 0.4:
+        # the circuit has a history before it is exported: operations replaced (also by gate kinds it never contained), removed,
+        # wrappers merged or split
+        prog.edits = programs.random_edits(prog, circ, rng, int(rng.integers(1, 5)))
+    return prog, circ
 
 
 def run_shard(spec, ctx):
@@ -150,8 +157,12 @@ def check_program(pseed, ctx):
     prog, circ = gen(rng)
     kinds = [o.kind for o in prog.live_ops()]
     n = prog.n_q
-    case = {"pseed": pseed, "program": prog.text(), "registers": [prog.n_e, prog.n_p, prog.n_c]}
+    case = {"pseed": pseed, "program": [o.text() for o in prog.live_ops()], "registers": [prog.n_e, prog.n_p, prog.n_c], "edits_before_export": prog.edits}
     nontrivial = len(kinds) >= 2
+    if prog.edits:
+        ctx.count("programs:edited_before_export")
+    if any(e.startswith("replace") for e in prog.edits):
+        ctx.count("programs:with_replaced_operation")
     if "W" in kinds:
         ctx.count("programs:with_wrapper")
     if "MR" in kinds:
